@@ -1933,7 +1933,8 @@ func RawJSON(sb *strings.Builder, v Val) bool {
 	return true
 }
 
-// GenPlainSchema: a type built from typed maps, lists, map-represented structs (all fields required, no renames) and
+// GenPlainSchema: a type built from typed maps, lists, map-represented structs (fields required or optional, nullable or
+// not, no renames) and
 // scalars only — the typed builders whose call protocol coincides with the generic one (C12, C01).
 func GenPlainSchema(r *Rand, depth int) *SType {
 	if depth >= 3 || r.Chance(1, 3) && depth > 0 {
@@ -1947,7 +1948,7 @@ func GenPlainSchema(r *Rand, depth int) *SType {
 	}
 	t := &SType{K: "struct", Name: freshTypeName("P"), SRepr: "map"}
 	for _, n := range pickDistinct(r, fieldNames, 1+r.Intn(4)) {
-		t.Fields = append(t.Fields, SField{Name: n, Rename: n, Nullable: r.Chance(1, 5), T: GenPlainSchema(r, depth+1)})
+		t.Fields = append(t.Fields, SField{Name: n, Rename: n, Opt: r.Chance(1, 3), Nullable: r.Chance(1, 5), T: GenPlainSchema(r, depth+1)})
 	}
 	return t
 }
